@@ -304,7 +304,12 @@ func c08Run(r *kit.Run, idx int64, rng *rand.Rand) {
 				return false
 			}
 		}) {
-			if cs, q := kit.Quiesce(c08Watchdog); q && cfg.quiescable() {
+			if cs, q := kit.Quiesce(c08Watchdog); isClosed(pd) {
+				// finished late (slow machine): carry on below is not possible
+				// any more for this run, count it and leave
+				inconclusive = ""
+				r.Count("runs_abandoned(publishers finished late)", 1)
+			} else if q && cfg.quiescable() {
 				note("publish-stalls", fmt.Sprintf("publishers are blocked although every subscriber keeps receiving; at quiescence: %v", cs.Describe()))
 			} else {
 				inconclusive = "publishers did not finish"
